@@ -20,6 +20,8 @@ import Mamba.Lemmas.DistanceBiconCover
 import Mamba.Lemmas.DistanceBiconTree2
 import Mamba.Lemmas.DistanceBiconLow2
 import Mamba.Lemmas.DistanceBiconArt2
+import Mamba.Lemmas.DistanceBiconStatic3
+import Mamba.Lemmas.DistanceBiconStatic8
 /-!
 # C10 — property theorems
 
@@ -270,8 +272,8 @@ symmetric adjacency relation the model returns a value — no index is out of ra
 `bicoms[i][len(bicoms[i])-1]` in the merge loop is never taken of an empty slice: all partial blocks except the
 current one are non-empty), every `for len(toCheck) > 0` loop terminates within `2n + 2` iterations (each iteration
 pushes an unvisited vertex or pops one) — and every reported block is a sorted list.
-NOT proved (the full statement): that the reported blocks are exactly `blocks g` (`blocks_spec`) and the reported
-articulation vertices exactly `articulation g` (`articulation_spec`); this is validated per input (`F=ok`). -/
+The full statement (blocks = `blocks g`, articulation vertices = `articulation g`) is
+`biconnectedComponents_model_correct` below. -/
 theorem biconnectedComponents_model_total_partial (g : G) (hsym : ∀ u v, g.adj u v = g.adj v u) :
     ∃ bs arts, Model.biconnectedComponents g = .ok (bs, arts) ∧
       ∀ b ∈ bs, b.Pairwise (fun a b => decide (a ≤ b) = true) :=
@@ -282,9 +284,7 @@ vertices as singleton blocks). Proved through a DFS invariant on the faithful mo
 stack has all its neighbours visited and lies in a partial block or in an emitted block; the merge loop and the
 emission only move vertices between partial blocks and the output; at the end the visited set contains the root and
 is closed under adjacency, hence is the whole (connected) component.
-Still missing for `biconnectedComponents_model_correct`: every edge lies in exactly one reported block, every
-reported block is connected without articulation vertex and maximal (= `blocks g`), and the reported articulation
-vertices are exactly `articulation g` (lowpoint correctness). -/
+(A first milestone; superseded by `biconnectedComponents_model_correct` below.) -/
 theorem bicon_blocks_cover_vertices_partial (g : G) (hsym : ∀ u v, g.adj u v = g.adj v u)
     (bs : List (List Nat)) (arts : List Nat) (hres : Model.biconnectedComponents g = .ok (bs, arts)) :
     ∀ x, x < g.n → ∃ b ∈ bs, x ∈ b :=
@@ -375,6 +375,72 @@ theorem bicon_articulation_complete (g : G) (hsym : ∀ u v, g.adj u v = g.adj v
     (∀ x, x ∈ articulation g → x ∈ arts) ∧ arts.Nodup ∧ Model.sortInts arts = articulation g :=
   have h := bicon_articulation_eq g hsym hirr bs arts hres
   ⟨fun x hx => (h.2.1 x).2 hx, h.1, h.2.2⟩
+
+/-- (5a) The blocks appended by the DFS of one connected component `com`, in terms of the final DFS tree `tp`,
+depths and lowpoints (`DFinal`: the invariants of (1)–(3) at the end of the loop): either the component is a single
+vertex and the only block is that vertex, or the blocks are — each exactly once, as increasing lists of global
+labels (`IsBlk`) — the sets `{tp c} ∪ {y | NL c y}` for the non-root vertices `c` with
+`lowpoints[c] >= depths[tp c]`, where `NL c y` says that `y` lies in the subtree of `c` and no vertex strictly below
+`c` on the tree path to `y` has that property. This is the exact content of `bicoms` / `biconnectedComponents`
+(invariant `BK`, kept by descending, emitting and the merge loop). -/
+theorem bicon_blocks_structure (g : G) (com : List Nat) (gc : GoodCom g com) (hne : com ≠ [])
+    (hconn : ∀ x ∈ com, Reach g (com.getD 0 0) x) (hsym : ∀ u v, g.adj u v = g.adj v u)
+    (hirr : ∀ v, g.adj v v = false) (acc acc' : List (List Nat) × List Nat)
+    (hacc : ∀ b ∈ acc.1, b.Pairwise (fun a b => decide (a ≤ b) = true))
+    (hres : Model.bicComponent g com acc = .ok acc') :
+    ∃ st tp new, DFinal (g.induced com) st tp ∧ acc'.1 = acc.1 ++ new ∧
+      BlocksOf (g.induced com) com st tp new :=
+  bicComponent_blocks gc hne hconn hsym hirr acc acc' hacc hres
+
+/-- (5b) **Every edge lies in exactly one block**: for every simple graph and every edge `x – y`, exactly one of
+the blocks returned by the faithful model of `BiconnectedComponents` contains both end points. -/
+theorem bicon_blocks_cover_edges (g : G) (hsym : ∀ u v, g.adj u v = g.adj v u) (hirr : ∀ v, g.adj v v = false)
+    (bs : List (List Nat)) (arts : List Nat) (hres : Model.biconnectedComponents g = .ok (bs, arts)) :
+    ∀ x y, x < g.n → y < g.n → g.adj x y = true →
+      ∃ b ∈ bs, x ∈ b ∧ y ∈ b ∧ ∀ b' ∈ bs, x ∈ b' → y ∈ b' → b' = b :=
+  (bicon_blocks_edges_connected g hsym hirr bs arts hres).1
+
+/-- (5c) **Every block is connected**: any two vertices of a returned block are joined by a walk inside the
+block. -/
+theorem bicon_blocks_connected (g : G) (hsym : ∀ u v, g.adj u v = g.adj v u) (hirr : ∀ v, g.adj v v = false)
+    (bs : List (List Nat)) (arts : List Nat) (hres : Model.biconnectedComponents g = .ok (bs, arts)) :
+    ∀ b ∈ bs, ∀ x ∈ b, ∀ y ∈ b, ReachIn g b x y :=
+  (bicon_blocks_edges_connected g hsym hirr bs arts hres).2
+
+/-- (6a) Inside the graph `h` of one component, at the end of the DFS: a block `{tp l} ∪ {y | NL l y}` of a
+block-closing vertex `l` (`Ldr`: non-root, `lowpoints[l] >= depths[tp l]`) has no articulation vertex — deleting any
+vertex `v` of it leaves the rest connected inside the block (`SepIn` fails); the proof follows the back edge that
+realises the lowpoint of a child of `v` (`DFinal.block_back_edge`). -/
+theorem bicon_block_no_articulation (h : G) (st : Model.BicSt) (tp : Nat → Nat) (df : DFinal h st tp)
+    (hsym : ∀ u v, h.adj u v = h.adj v u) (l : Nat) (hl : Ldr h st tp l) (B : List Nat)
+    (hB : ∀ w, w ∈ B ↔ (w < h.n ∧ InBlk st tp l w)) (hnd : B.Nodup) : ∀ v ∈ B, ¬ SepIn h B v :=
+  df.block_no_sep hsym hl B hB hnd
+
+/-- (6b) Maximality, inside the graph `h` of one component with at least two vertices: every non-empty connected
+vertex set without articulation vertex (`BSet`) lies inside the block of one block-closing vertex, and the blocks of
+two different block-closing vertices are not nested. -/
+theorem bicon_block_sets_covered (h : G) (st : Model.BicSt) (tp : Nat → Nat) (df : DFinal h st tp)
+    (hsym : ∀ u v, h.adj u v = h.adj v u) (hn2 : 1 < h.n) :
+    (∀ T, BSet h T → ∃ l, Ldr h st tp l ∧ ∀ x ∈ T, InBlk st tp l x) ∧
+    (∀ l l', Ldr h st tp l → Ldr h st tp l' → (∀ x, x < h.n → InBlk st tp l x → InBlk st tp l' x) → l = l') :=
+  ⟨fun T hT => df.bset_in_block hsym hn2 T hT, fun _ _ hl hl' hsub => df.block_not_nested hl hl' hsub⟩
+
+/-- (6c) **`BiconnectedComponents` = specification.** For every simple graph (symmetric, irreflexive adjacency) the
+faithful model of `BiconnectedComponents` (iterative lowpoint DFS, statement by statement after the Go code) returns
+a value `(bs, arts)` — no panic, within its fuel — such that
+* `bs` is a permutation of `blocks g`: every returned block is a maximal block set (`blocks_spec`: non-empty,
+  connected, without articulation vertex, maximal) as an increasing list, every block of `g` is returned, none twice;
+* `arts`, sorted, is `articulation g` (`articulation_spec`); no vertex is reported twice.
+The harness sorts both results before printing, so the printed result of the model is the printed reference. -/
+theorem biconnectedComponents_model_correct (g : G) (hsym : ∀ u v, g.adj u v = g.adj v u)
+    (hirr : ∀ v, g.adj v v = false) :
+    ∃ bs arts, Model.biconnectedComponents g = .ok (bs, arts) ∧
+      bs.Perm (blocks g) ∧ (∀ S, S ∈ bs ↔ S ∈ blocks g) ∧ bs.Nodup ∧
+      Model.sortInts arts = articulation g ∧ arts.Nodup := by
+  obtain ⟨bs, arts, hres, _⟩ := biconnectedComponents_total g hsym
+  obtain ⟨h1, h2, h3⟩ := bicon_blocks_eq g hsym hirr bs arts hres
+  obtain ⟨h4, _, h6⟩ := bicon_articulation_eq g hsym hirr bs arts hres
+  exact ⟨bs, arts, hres, h3, h2, h1, h6, h4⟩
 
 /-! ## Girth and cycle / path counts -/
 
